@@ -39,60 +39,64 @@ var markers = []string{"int16", "int32", "int64", "boolean"}
 
 func exhaustiveCases() []tcase {
 	var out []tcase
-	forms := []string{"t", "p:t", "q:t"}
-	for variant := 0; variant < 2; variant++ {
-		nOther := 1
-		if variant == 1 {
-			nOther = 2
-		}
-		for si, sh := range shapes {
-			k := 0
-			for _, o := range sh.open {
-				if strings.Contains(o, "%T") {
-					k++
-				}
+	// the name is an ordinary one or that of a built-in type (goyang accepts `typedef string`):
+	// unprefixed it then denotes the built-in, with any prefix it is an ordinary name
+	for ni, tname := range []string{"t", "string"} {
+		forms := []string{tname, "p:" + tname, "q:" + tname}
+		for variant := 0; variant < 2; variant++ {
+			nOther := 1
+			if variant == 1 {
+				nOther = 2
 			}
-			for mask := 0; mask < 1<<k; mask++ {
-				for top := 0; top < 2; top++ {
-					for other := 0; other < 1<<nOther; other++ {
-						for imp := 0; imp < 4; imp++ {
-							for fi, form := range forms {
-								var body strings.Builder
-								bit := 0
-								for _, o := range sh.open {
-									if strings.Contains(o, "%T") {
-										td := ""
-										if mask&(1<<bit) != 0 {
-											td = fmt.Sprintf("typedef t { type %s; }", markers[bit])
+			for si, sh := range shapes {
+				k := 0
+				for _, o := range sh.open {
+					if strings.Contains(o, "%T") {
+						k++
+					}
+				}
+				for mask := 0; mask < 1<<k; mask++ {
+					for top := 0; top < 2; top++ {
+						for other := 0; other < 1<<nOther; other++ {
+							for imp := 0; imp < 4; imp++ {
+								for fi, form := range forms {
+									var body strings.Builder
+									bit := 0
+									for _, o := range sh.open {
+										if strings.Contains(o, "%T") {
+											td := ""
+											if mask&(1<<bit) != 0 {
+												td = fmt.Sprintf("typedef %s { type %s; }", tname, markers[bit])
+											}
+											bit++
+											o = strings.Replace(o, "%T", td, 1)
 										}
-										bit++
-										o = strings.Replace(o, "%T", td, 1)
+										body.WriteString(o + "\n")
 									}
-									body.WriteString(o + "\n")
-								}
-								body.WriteString(fmt.Sprintf("leaf x1 { type %s; }\n", form))
-								body.WriteString(sh.close + "\n" + sh.uses + "\n")
-								td := func(on bool, ty string) string {
-									if on {
-										return "typedef t { type " + ty + "; }\n"
+									body.WriteString(fmt.Sprintf("leaf x1 { type %s; }\n", form))
+									body.WriteString(sh.close + "\n" + sh.uses + "\n")
+									td := func(on bool, ty string) string {
+										if on {
+											return "typedef " + tname + " { type " + ty + "; }\n"
+										}
+										return ""
 									}
-									return ""
-								}
-								var files []srcFile
-								if variant == 0 {
+									var files []srcFile
+									if variant == 0 {
+										files = append(files,
+											srcFile{"m.yang", "module m { namespace \"urn:m\"; prefix p; import x { prefix q; } include s1;\n" + td(top == 1, "int8") + body.String() + "}\n"},
+											srcFile{"s1.yang", "submodule s1 { belongs-to m { prefix p; }\n" + td(other&1 != 0, "uint16") + "}\n"})
+									} else {
+										files = append(files,
+											srcFile{"m.yang", "module m { namespace \"urn:m\"; prefix p; include s1; include s2;\n" + td(other&1 != 0, "uint8") + "}\n"},
+											srcFile{"s1.yang", "submodule s1 { belongs-to m { prefix p; } import x { prefix q; }\n" + td(top == 1, "int8") + body.String() + "}\n"},
+											srcFile{"s2.yang", "submodule s2 { belongs-to m { prefix p; }\n" + td(other&2 != 0, "uint16") + "}\n"})
+									}
 									files = append(files,
-										srcFile{"m.yang", "module m { namespace \"urn:m\"; prefix p; import x { prefix q; } include s1;\n" + td(top == 1, "int8") + body.String() + "}\n"},
-										srcFile{"s1.yang", "submodule s1 { belongs-to m { prefix p; }\n" + td(other&1 != 0, "uint16") + "}\n"})
-								} else {
-									files = append(files,
-										srcFile{"m.yang", "module m { namespace \"urn:m\"; prefix p; include s1; include s2;\n" + td(other&1 != 0, "uint8") + "}\n"},
-										srcFile{"s1.yang", "submodule s1 { belongs-to m { prefix p; } import x { prefix q; }\n" + td(top == 1, "int8") + body.String() + "}\n"},
-										srcFile{"s2.yang", "submodule s2 { belongs-to m { prefix p; }\n" + td(other&2 != 0, "uint16") + "}\n"})
+										srcFile{"x.yang", "module x { namespace \"urn:x\"; prefix p; include xs;\n" + td(imp&1 != 0, "uint32") + "}\n"},
+										srcFile{"xs.yang", "submodule xs { belongs-to x { prefix p; }\n" + td(imp&2 != 0, "uint64") + "}\n"})
+									out = append(out, tcase{ID: fmt.Sprintf("exh/n%d/v%d/s%d/m%d/t%d/o%d/i%d/f%d", ni, variant, si, mask, top, other, imp, fi), Files: files})
 								}
-								files = append(files,
-									srcFile{"x.yang", "module x { namespace \"urn:x\"; prefix p; include xs;\n" + td(imp&1 != 0, "uint32") + "}\n"},
-									srcFile{"xs.yang", "submodule xs { belongs-to x { prefix p; }\n" + td(imp&2 != 0, "uint64") + "}\n"})
-								out = append(out, tcase{ID: fmt.Sprintf("exh/v%d/s%d/m%d/t%d/o%d/i%d/f%d", variant, si, mask, top, other, imp, fi), Files: files})
 							}
 						}
 					}
@@ -166,7 +170,15 @@ func (c *fileCtx) typeRef(f family) (string, bool) {
 	x := c.r.Intn(100)
 	switch {
 	case x < 34:
-		return c.pick(builtinOf[f]), true
+		b := c.pick(builtinOf[f])
+		// a built-in name behind a prefix is an ordinary name (a typedef of that name, or unknown)
+		switch y := c.r.Intn(100); {
+		case y < 6:
+			return c.ownPrefix + ":" + b, false
+		case y < 9 && len(c.imports) > 0:
+			return c.pick(c.imports) + ":" + b, false
+		}
+		return b, true
 	case x < 66:
 		return c.pick(typedefNames), false
 	case x < 80:
@@ -364,6 +376,16 @@ func (c *fileCtx) typedef(name string) {
 // module (each name once per module and its submodules, but for rare illegal repetitions), 0-2
 // in a nested scope.
 func (c *fileCtx) typedefs(top bool, avoid map[string]bool) {
+	if c.r.Intn(100) < 5 {
+		// a typedef named like a built-in type: only a prefixed reference can mean it
+		bn := c.pick(builtinOf[c.fam()])
+		if avoid == nil || !avoid["builtin:"+bn] {
+			if avoid != nil {
+				avoid["builtin:"+bn] = true
+			}
+			c.typedef(bn)
+		}
+	}
 	if top {
 		for _, name := range typedefNames {
 			if avoid[name] {
@@ -626,6 +648,14 @@ func randomCase(r *rand.Rand, id string) tcase {
 // odd but builder-accepted type statements
 
 var oddTypes = []string{
+	"type p:int8;",
+	"type p:string { pattern \"a\"; }",
+	"type p:union { type string; }",
+	"type p:boolean;",
+	"type p:decimal64 { fraction-digits 2; }",
+	"type zz:int8;",
+	"type string;",
+	"type int8;",
 	"type string { type int8; }",
 	"type string { base id0; }",
 	"type int8 { fraction-digits 2; }",
@@ -698,6 +728,11 @@ func oddCase(r *rand.Rand, id string) tcase {
 				sb.WriteString(" units \"u\";")
 			}
 			sb.WriteString(" }\n")
+		}
+	}
+	for _, bn := range []string{"string", "int8", "union", "boolean"} {
+		if r.Intn(5) == 0 {
+			fmt.Fprintf(&sb, "typedef %s { %s }\n", bn, pick())
 		}
 	}
 	for i := 0; i < 2+r.Intn(4); i++ {
